@@ -10,11 +10,14 @@
 package main
 
 import (
+	"bytes"
 	"context"
 	"fmt"
 	"os"
+	"sort"
 	"strconv"
 	"strings"
+	"sync/atomic"
 	"time"
 
 	"k8s.io/client-go/tools/leaderelection/resourcelock"
@@ -45,7 +48,10 @@ type caseSpec struct {
 	Cands   []candSpec `json:"cands"`
 	Kind    string     `json:"kind"`
 	Backend bool       `json:"via_new_backend"`
-	Mutant  string     `json:"mutant,omitempty"`
+	// CommitPark: a second yield point inside every batch, right before the engine Commit (the batch is begun
+	// and staged, the thread parks, others run, then the commit goes through)
+	CommitPark bool   `json:"park_before_commit,omitempty"`
+	Mutant     string `json:"mutant,omitempty"`
 }
 
 // one executed lock operation, as the Coq step
@@ -57,6 +63,7 @@ type opObs struct {
 	BytesQ  string `json:"bytes,omitempty"`
 	Env     string `json:"env"`
 	TsoRead bool   `json:"tso_read"`
+	Stale   bool   `json:"other_engine_steps_between_begin_and_commit,omitempty"`
 	Ts      uint64 `json:"ts"`
 	TsErr   bool   `json:"ts_err"`
 	Res     string `json:"res"`
@@ -66,6 +73,7 @@ type opObs struct {
 	Got      string `json:"get_returned,omitempty"`
 	gotB     []byte
 	gotOK    bool
+	seq      int64 // global completion order
 	storedB  []byte
 	storedOK bool
 	descH    string
@@ -82,6 +90,9 @@ type cand struct {
 	le          leader.LeaderElection // the node's leaderElection object (information lookups)
 	sched       *lib.Sched
 	cur         *opSpec // fault plan of the operation in progress
+	commitPark  bool
+	atCommit    bool // parked inside a begun batch, right before its engine Commit
+	stale       bool // another thread was stepped while this one was parked there
 	engineCalls int
 	log         []opObs
 	seq         int // record counter: makes every written record distinct
@@ -117,9 +128,10 @@ func (b *mutantBatch) PutIfNotExist(k, v []byte, ttl int64) {
 }
 
 var backendsMade int
+var opSeq int64
 
-func newCand(i int, spec candSpec, kv storage.KvStorage, prefix string, sched *lib.Sched, viaBackend bool, mutant string) *cand {
-	c := &cand{idx: i, spec: spec, sched: sched}
+func newCand(i int, spec candSpec, kv storage.KvStorage, prefix string, sched *lib.Sched, viaBackend bool, mutant string, commitPark bool) *cand {
+	c := &cand{idx: i, spec: spec, sched: sched, commitPark: commitPark}
 	inner := kv
 	if mutant != "" {
 		inner = &mutantKV{KvStorage: kv, mode: mutant}
@@ -141,6 +153,11 @@ func newCand(i int, spec candSpec, kv storage.KvStorage, prefix string, sched *l
 		return nil
 	}
 	w.CommitFault = func() (error, bool) {
+		if c.commitPark {
+			c.atCommit = true
+			sched.Yield("engine.commit")
+			c.atCommit = false
+		}
 		if c.cur != nil && c.cur.Fault == "unknown" {
 			return lib.ErrInjected, true
 		}
@@ -187,6 +204,7 @@ func envName(kind, fault string) string {
 // doOp performs one lock operation on the calling logical thread and logs it.
 func (c *cand) doOp(op opSpec) string {
 	c.cur = &op
+	c.stale = false
 	calls0 := c.engineCalls
 	tso0, _, _ := c.tap.Snapshot()
 	o := opObs{Cand: c.idx + 1, Kind: op.Kind, Env: envName(op.Kind, op.Fault)}
@@ -234,6 +252,8 @@ func (c *cand) doOp(op opSpec) string {
 	} else {
 		o.TsErr = op.Fault == "tso"
 	}
+	o.Stale = c.stale
+	o.seq = atomic.AddInt64(&opSeq, 1)
 	c.cur = nil
 	c.log = append(c.log, o)
 	return o.Res
@@ -261,6 +281,7 @@ type runResult struct {
 	trace   []int   // thread chosen at each decision
 	alive   [][]int // threads that could have been chosen
 	steps   []opObs
+	blocked []string // steps that did not return because the engine made the thread wait
 	initRec []byte
 	initOK  bool
 	initDec string // "holder" value, or "" with initUndec
@@ -303,7 +324,7 @@ func runSchedule(cs caseSpec, kv storage.KvStorage, forced []int, rnd *lib.Rand)
 	cands := make([]*cand, len(cs.Cands))
 	threads := make([]*lib.Thread, len(cs.Cands))
 	for i, sp := range cs.Cands {
-		cands[i] = newCand(i, sp, kv, prefix, sched, cs.Backend, cs.Mutant)
+		cands[i] = newCand(i, sp, kv, prefix, sched, cs.Backend, cs.Mutant, cs.CommitPark)
 	}
 	for i := range cands {
 		c := cands[i]
@@ -311,18 +332,75 @@ func runSchedule(cs caseSpec, kv storage.KvStorage, forced []int, rnd *lib.Rand)
 	}
 	done := make([]bool, len(cands))
 	seen := make([]int, len(cands))
-	collect := func(i int) {
-		b, ok, gerr := lib.ElStored(kv, prefix)
-		if gerr != nil {
-			res.fail = "reading the stored record failed: " + gerr.Error()
+	lastB, lastOK := res.initRec, res.initOK
+	derived := false
+	holdsOpenBatch := func() bool {
+		for _, c := range cands {
+			if c.atCommit {
+				return true
+			}
 		}
-		c := cands[i]
-		for seen[i] < len(c.log) {
-			o := c.log[seen[i]]
-			seen[i]++
-			o.storedB, o.storedOK = b, ok
-			if ok {
-				o.Stored = string(b)
+		return false
+	}
+	// collectAll logs the operations completed since the last call, in completion order, each with the stored
+	// record right after it. memkv keeps its mutex from BeginBatchWrite to Commit (and a waiting thread takes it the
+	// moment it is released), so while a thread is parked inside a batch the record cannot be read: it is then derived
+	// from the operations' own results (commit-park cases carry no fault injection) and cross-checked at the next read.
+	collectAll := func() {
+		type ent struct {
+			i int
+			o opObs
+		}
+		var xs []ent
+		for i, c := range cands {
+			for seen[i] < len(c.log) {
+				xs = append(xs, ent{i, c.log[seen[i]]})
+				seen[i]++
+			}
+		}
+		if len(xs) == 0 {
+			return
+		}
+		sort.Slice(xs, func(a, b int) bool { return xs[a].o.seq < xs[b].o.seq })
+		type val struct {
+			b  []byte
+			ok bool
+		}
+		vals := make([]val, len(xs))
+		cur := val{lastB, lastOK}
+		for k, x := range xs {
+			if (x.o.Kind == "create" || x.o.Kind == "update") && x.o.Res == "ROk" {
+				cur = val{x.o.Bytes, true}
+			}
+			vals[k] = cur
+		}
+		canRead := !(cs.Engine == lib.EngMem && holdsOpenBatch())
+		if canRead {
+			b, ok, gerr := lib.ElStored(kv, prefix)
+			if gerr != nil {
+				res.fail = "reading the stored record failed: " + gerr.Error()
+			}
+			n := len(xs)
+			if derived && n > 0 && xs[0].o.Kind != "create" && xs[0].o.Kind != "update" && len(xs) == 1 && (ok != lastOK || !bytes.Equal(b, lastB)) {
+				res.fail = fmt.Sprintf("the stored record %q is not what the last reported successful write wrote (%q)", b, lastB)
+			}
+			vals[n-1] = val{b, ok}
+			for k := n - 2; k >= 0; k-- { // operations that cannot write leave the record as their predecessor left it
+				if nk := xs[k+1].o.Kind; nk == "get" || nk == "info" || xs[k+1].o.Res == "RUninit" {
+					vals[k] = vals[k+1]
+				}
+			}
+			derived = false
+		} else {
+			derived = true
+		}
+		lastB, lastOK = vals[len(xs)-1].b, vals[len(xs)-1].ok
+		for k, x := range xs {
+			o := x.o
+			c := cands[x.i]
+			o.storedB, o.storedOK = vals[k].b, vals[k].ok
+			if o.storedOK {
+				o.Stored = string(o.storedB)
 			} else {
 				o.Stored = "<absent>"
 			}
@@ -340,6 +418,7 @@ func runSchedule(cs caseSpec, kv storage.KvStorage, forced []int, rnd *lib.Rand)
 			res.steps = append(res.steps, o)
 		}
 	}
+	collect := func(int) { collectAll() }
 	// every thread first runs from its start to its first engine call: local work only (an Update on
 	// an uninitialised lock completes here), so the order is immaterial and not part of the schedule
 	for i := range threads {
@@ -352,10 +431,25 @@ func runSchedule(cs caseSpec, kv storage.KvStorage, forced []int, rnd *lib.Rand)
 		}
 		collect(i)
 	}
+	inflight := make([]bool, len(cands)) // resumed, but made to wait by the engine (memkv: store mutex held by an open batch)
+	settle := func() {                   // let waiting threads reach their next yield point once they can
+		for j := range threads {
+			if inflight[j] {
+				p, fin := sched.Wait(threads[j], 150*time.Millisecond)
+				if p == "<blocked>" {
+					continue
+				}
+				inflight[j] = false
+				if fin {
+					done[j] = true
+				}
+			}
+		}
+	}
 	for step := 0; ; step++ {
 		var al []int
 		for i := range threads {
-			if !done[i] {
+			if !done[i] && !inflight[i] {
 				al = append(al, i)
 			}
 		}
@@ -366,6 +460,9 @@ func runSchedule(cs caseSpec, kv storage.KvStorage, forced []int, rnd *lib.Rand)
 		switch {
 		case step < len(forced):
 			pick = forced[step]
+			if done[pick] || inflight[pick] {
+				pick = al[0]
+			}
 		case rnd != nil:
 			pick = al[rnd.Intn(len(al))]
 		default:
@@ -373,15 +470,47 @@ func runSchedule(cs caseSpec, kv storage.KvStorage, forced []int, rnd *lib.Rand)
 		}
 		res.trace = append(res.trace, pick)
 		res.alive = append(res.alive, al)
-		p, fin := sched.Step(threads[pick], 5*time.Second)
+		mayWait := false
+		for j, c := range cands {
+			if j != pick && c.atCommit {
+				c.stale = true
+				mayWait = cs.Engine == lib.EngMem
+			}
+		}
+		d := 5 * time.Second
+		if mayWait {
+			d = 150 * time.Millisecond
+		}
+		p, fin := sched.Step(threads[pick], d)
 		if p == "<blocked>" {
-			res.fail = fmt.Sprintf("thread %d blocked for 5s at step %d", pick+1, step)
-			break
+			if !mayWait {
+				res.fail = fmt.Sprintf("thread %d blocked for 5s at step %d", pick+1, step)
+				break
+			}
+			inflight[pick] = true
+			res.blocked = append(res.blocked, fmt.Sprintf("step %d: candidate %d waits for the engine (a batch of another candidate is open)", step, pick+1))
+		} else {
+			if fin {
+				done[pick] = true
+			}
+			// a waiting thread takes the engine's mutex as soon as it is released: let it reach its next yield
+			// point first, so that nothing is half-way when the record is read
+			settleFirst := false
+			for j := range inflight {
+				settleFirst = settleFirst || inflight[j]
+			}
+			if settleFirst {
+				settle()
+			}
+			collect(pick)
 		}
-		if fin {
-			done[pick] = true
+		settle()
+		collectAll()
+	}
+	for j := range threads {
+		if inflight[j] && res.fail == "" {
+			res.fail = fmt.Sprintf("thread %d still waits for the engine at the end of the schedule", j+1)
 		}
-		collect(pick)
 	}
 	for i, t := range threads {
 		if !done[i] {
@@ -456,7 +585,7 @@ func stepCoq(o opObs) string {
 	case "info":
 		lab = lib.App("LInfo", lib.N(uint64(o.Cand)))
 	}
-	return lib.App("mkStep", lab, o.Res, lib.Bool(o.TsoRead), optBytesCoq(o.gotB, o.gotOK), optBytesCoq(o.storedB, o.storedOK),
+	return lib.App("mkStep", lab, o.Res, lib.Bool(o.TsoRead), lib.Bool(o.Stale), optBytesCoq(o.gotB, o.gotOK), optBytesCoq(o.storedB, o.storedOK),
 		lib.Pair(bytesCoq([]byte(o.descH)), lib.N(o.descT)))
 }
 
@@ -532,7 +661,10 @@ func main() {
 				}
 			}
 		}
-		js := map[string]interface{}{"spec": cs, "schedule": r.trace, "steps": r.steps}
+		js := map[string]interface{}{"spec": cs, "schedule": r.trace, "steps": r.steps, "engine_waits": r.blocked}
+		if len(r.blocked) > 0 {
+			outs = append(outs, "engine-wait")
+		}
 		if r.fail != "" {
 			w.Fail(lib.ImplFailure{CaseID: w.Len(), Code: 0, What: r.fail, Case: js})
 			return
@@ -590,6 +722,17 @@ func main() {
 			r := runSchedule(cs, kv, []int{0, 1, 1, 0, 2, 0}, nil)
 			emit(cs, r)
 		}
+		// a second yield point inside the batch, right before the engine Commit: A stages and parks; B runs its whole
+		// Create/Update (memkv: B must wait for the store mutex until A has committed; Badger/TiKV: B completes and
+		// A's commit must then fail); at most one of the two is applied
+		for _, cfg := range []caseSpec{
+			mk(eng, "absent", "corpus-commit-park-create-race", prog("get", "create"), prog("get", "create")),
+			mk(eng, "held", "corpus-commit-park-same-observed", prog("get", "update"), prog("get", "update")),
+			mk(eng, "absent", "corpus-commit-park-acquire", prog("acquire"), prog("acquire", "acquire")),
+		} {
+			cfg.CommitPark = true
+			explore(cfg)
+		}
 		explore(mk(eng, "absent", "corpus-renew-twice", prog("create", "update", "update", "get", "update")))
 		explore(mk(eng, "held", "corpus-same-observed", prog("get", "update"), prog("get", "update")))
 		explore(mk(eng, "absent", "corpus-create-race", prog("get", "create"), prog("get", "create")))
@@ -605,6 +748,17 @@ func main() {
 			for _, pa := range two {
 				for _, pb := range two {
 					explore(mk(eng, init, "exh-2x2", pa, pb))
+				}
+			}
+		}
+		if eng != lib.EngMem { // on memkv every step against an open batch costs a wait: the corpus above covers it
+			for _, init := range []string{"absent", "held", "released"} {
+				for _, pa := range two {
+					for _, pb := range two {
+						cfg := mk(eng, init, "exh-2x2-commit-park", pa, pb)
+						cfg.CommitPark = true
+						explore(cfg)
+					}
 				}
 			}
 		}
